@@ -187,6 +187,41 @@ UNIT = Ag(())
 
 
 # ------------------------------------------------------------------------------------------- state
+EMPTY = frozenset()
+
+
+class Taint(dict):
+    """vid -> frozenset of labels (possibly empty): values that derive from input data / named sources"""
+
+    def add(self, v, labs=EMPTY):
+        if labs is True or labs is None:
+            labs = EMPTY
+        self[v] = self.get(v, EMPTY) | labs
+
+    def discard(self, v):
+        self.pop(v, None)
+
+    def copy(self):
+        return Taint(self)
+
+    def __iand__(self, live):
+        for k in [k for k in self if k not in live]:
+            del self[k]
+        return self
+
+    def labels(self, v):
+        return self.get(v, EMPTY)
+
+
+def tl(st, *vids):
+    """combined taint of several vids: None if none is tainted, else the union of their labels"""
+    out = None
+    for v in vids:
+        if v in st.taint:
+            out = st.taint[v] if out is None else (out | st.taint[v])
+    return out
+
+
 class Facts:
     """difference bounds  a - b <= c, indexed by both ends (dict-like on (a, b) keys)"""
     __slots__ = ("d", "fo", "fi")
@@ -274,7 +309,7 @@ class St:
         self.facts = Facts()
         self.prov = {}
         self.scale = {}
-        self.taint = set()
+        self.taint = Taint()
 
     def copy(self):
         s = St()
@@ -283,7 +318,7 @@ class St:
         s.facts = self.facts.copy()
         s.prov = dict(self.prov)
         s.scale = dict(self.scale)
-        s.taint = set(self.taint)
+        s.taint = self.taint.copy()
         s.part = self.part
         s.res = dict(self.res)
         return s
@@ -487,8 +522,8 @@ class Ctx:
         elif vid in st.itv:
             rename_vid(st, vid, self.fresh())
         st.itv[vid] = (lo, hi)
-        if taint:
-            st.taint.add(vid)
+        if taint is not None and taint is not False:
+            st.taint.add(vid, taint)
         return I(vid, ty)
 
     def int_range(self, ty):
@@ -669,8 +704,7 @@ def rename_vid(st, old, new):
     if old in st.scale:
         st.scale[new] = st.scale.pop(old)
     if old in st.taint:
-        st.taint.discard(old)
-        st.taint.add(new)
+        st.taint.add(new, st.taint.pop(old))
     if old in st.res:
         st.res[new] = st.res.pop(old)
     for k in st.facts.touching(old):
@@ -701,7 +735,7 @@ def rename_bulk(st, m):
     st.facts = Facts({(g(a), g(b)): c for (a, b), c in st.facts.items()})
     st.prov = {g(k): (p[0], tuple(g(x) for x in p[1]), p[2]) for k, p in st.prov.items()}
     st.scale = {g(k): (mm, g(b)) for k, (mm, b) in st.scale.items()}
-    st.taint = {g(x) for x in st.taint}
+    st.taint = Taint({g(k): v for k, v in st.taint.items()})
     st.res = {g(k): v for k, v in st.res.items()}
 
 
@@ -776,8 +810,10 @@ def join_states(ctx, a, b, tag, widen=False, thresholds=()):
                 fin(t, (la, ha), (min(la, lb), max(ha, hb)), x.ty, path)
                 ma[t] = t
                 mb[t] = t
-                if t in a.taint or t in b.taint:
-                    out.taint.add(t)
+                tt = tl(a, t)
+                tb_ = tl(b, t)
+                if tt is not None or tb_ is not None:
+                    out.taint.add(t, (tt or EMPTY) | (tb_ or EMPTY))
             return I(t, x.ty)
         key = (x.vid, y.vid)
         t = pair.get(key)
@@ -791,8 +827,10 @@ def join_states(ctx, a, b, tag, widen=False, thresholds=()):
             fin(t, (la, ha), (min(la, lb), max(ha, hb)), x.ty, path)
             ma.setdefault(x.vid, t)
             mb.setdefault(y.vid, t)
-            if x.vid in a.taint or y.vid in b.taint:
-                out.taint.add(t)
+            tt = tl(a, x.vid)
+            tb_ = tl(b, y.vid)
+            if tt is not None or tb_ is not None:
+                out.taint.add(t, (tt or EMPTY) | (tb_ or EMPTY))
         return I(t, x.ty)
 
     def jv(x, y, path):
@@ -885,7 +923,7 @@ def join_states(ctx, a, b, tag, widen=False, thresholds=()):
             out.itv[t] = src.itv[t]
             (ma if src is a else mb)[t] = t
             if t in src.taint:
-                out.taint.add(t)
+                out.taint.add(t, src.taint[t])
         else:
             lo, hi = out.itv[t]
             l2, h2 = src.itv[t]
@@ -899,8 +937,10 @@ def join_states(ctx, a, b, tag, widen=False, thresholds=()):
             l2, h2 = src.itv[hv.vid]
             t = ("j", tag, path)
             out.itv[t] = (min(lo, l2), max(hi, h2))
-            if elem.vid in out.taint or hv.vid in src.taint:
-                out.taint.add(t)
+            tt = tl(out, elem.vid)
+            tb_ = tl(src, hv.vid)
+            if tt is not None or tb_ is not None:
+                out.taint.add(t, (tt or EMPTY) | (tb_ or EMPTY))
             return I(t, elem.ty)
         if type(elem) is Ag and type(hv) is Ag:
             return Ag(jv_loose(p, q, src, path + (i,)) for i, (p, q) in enumerate(zip(elem.f, hv.f)))
@@ -919,8 +959,10 @@ def join_states(ctx, a, b, tag, widen=False, thresholds=()):
                 out.itv[t] = (min(la, lb), max(ha, hb))
                 ma.setdefault(t, t)
                 mb.setdefault(t, t)
-                if t in a.taint or t in b.taint:
-                    out.taint.add(t)
+                tt = tl(a, t)
+                tb_ = tl(b, t)
+                if tt is not None or tb_ is not None:
+                    out.taint.add(t, (tt or EMPTY) | (tb_ or EMPTY))
     if widen and not changed_scalar[0] and any(old != hull for (old, hull, _) in pending.values()):
         # staged widening: element abstractions are widened only once the scalars have been stable
         # for a few rounds
